@@ -94,6 +94,7 @@ type Req struct {
 	CType     string            // overrides the content type
 	ForceForm bool              // send a form body even when Config.JSON
 	ForceJSON bool
+	Header    map[string]string // extra request headers
 
 	// Tag says what the request is, for the oracles (never sent).
 	Tag Tag
@@ -235,6 +236,9 @@ func (s *Stack) Do(w *World, rq Req) *Obs {
 		hr.Header.Set("Content-Type", ctype)
 	}
 	hr.Header.Set("X-Browser", rq.Browser)
+	for k, v := range rq.Header {
+		hr.Header.Set(k, v)
+	}
 	hr = hr.WithContext(contextWithBrowser(hr.Context(), rq.Browser))
 
 	rec := &recorder{ResponseRecorder: httptest.NewRecorder()}
@@ -360,6 +364,9 @@ func (s *Stack) DoConc(w *World, rq Req) *Obs {
 		hr.Header.Set("Content-Type", ctype)
 	}
 	hr.Header.Set("X-Browser", rq.Browser)
+	for k, v := range rq.Header {
+		hr.Header.Set(k, v)
+	}
 	hr = hr.WithContext(contextWithBrowser(hr.Context(), rq.Browser))
 	rec := &recorder{ResponseRecorder: httptest.NewRecorder()}
 	rec.Header().Set("X-Browser-Echo", rq.Browser)
